@@ -144,7 +144,8 @@ func (c *FenceConn) BeginTx(ctx context.Context, opts driver.TxOptions) (driver.
 		return nil
 	}
 
-	if err := WithFence(ctx, fenceTx, emptyCallback); err != nil {
+	// (assign to the outer err: the deferred cleanup above looks at it)
+	if err = WithFence(ctx, fenceTx, emptyCallback); err != nil {
 		return nil, err
 	}
 
